@@ -239,7 +239,7 @@ class SFloat(Sym):
         if o is None:
             return NotImplemented
         if not (o.aff is not None and o.aff.is_const()):
-            raise OutOfSubset('division by a symbolic float')
+            return self._div_sym(o)
         d = o.aff.c0
         if d == 0 and o.err == 0:
             raise ZeroDivisionError('float division by zero')
@@ -258,8 +258,30 @@ class SFloat(Sym):
         r.err += U * (r.mag + r.err)
         return r
 
+    def _div_sym(self, o):
+        """division by a symbolic float whose exact value is bounded away from zero (non-affine result)"""
+        c = ctx()
+        lo = hi = None
+        if o.aff is not None:
+            lo, hi = o.aff.bounds()
+        if lo is None or (lo <= o.err and hi >= -o.err):
+            lo, hi = _opt_bounds(o.t)             # path-sensitive bounds from the solver (linear objective)
+        if lo is None or (lo <= o.err and hi >= -o.err):
+            # the divisor may be zero: fork on it
+            if c.decide(o.t == 0) if o.err == 0 else False:
+                raise ZeroDivisionError('float division by zero')
+            raise OutOfSubset('division by a symbolic float not bounded away from zero')
+        dmin = (lo if lo > 0 else -hi) - o.err
+        r = SFloat(None, self.t / o.t, 0, self.mag / dmin)
+        r.err = self.err / dmin + self.mag * o.err / (dmin * dmin)
+        r.err += U * (r.mag + r.err)
+        return r
+
     def __rtruediv__(self, o):
-        raise OutOfSubset('division by a symbolic float')
+        a = self._co(o)
+        if a is None:
+            return NotImplemented
+        return a._div_sym(self) if not (self.aff is not None and self.aff.is_const()) else a.__truediv__(self)
 
     # -- discontinuous uses --------------------------------------------------------
     def _floor_int(self, what):
@@ -497,6 +519,40 @@ class SFloat(Sym):
         if self <= o:
             return self
         return o
+
+
+def _opt_bounds(t):
+    """(min, max) of a real term under the current path condition, as Fractions widened outward; (None, None) if unknown"""
+    c = ctx()
+    out = []
+    for sense in ('min', 'max'):
+        o = z3.Optimize()
+        o.set('timeout', 3000)
+        o.add(*c.pc)
+        h = o.minimize(t) if sense == 'min' else o.maximize(t)
+        chk = o.check()
+        if chk == z3.unsat:
+            from .core import Abort
+            raise Abort()             # the path condition itself is infeasible
+        if chk != z3.sat:
+            return None, None
+        try:
+            vals = o.lower_values(h) if sense == 'min' else o.upper_values(h)
+            inf_c, v = vals[0], vals[1]
+            if not (z3.is_int_value(inf_c) or z3.is_rational_value(inf_c)) or inf_c.as_fraction() != 0:
+                return None, None
+        except Exception:
+            v = o.lower(h) if sense == 'min' else o.upper(h)
+        if z3.is_int_value(v):
+            f = Fraction(v.as_long())
+        elif z3.is_rational_value(v):
+            f = Fraction(v.numerator_as_long(), v.denominator_as_long())
+        else:
+            return None, None
+        out.append(f)
+    lo, hi = out
+    w = (abs(lo) + abs(hi)) * Fraction(1, 10 ** 12)
+    return lo - w, hi + w
 
 
 def aff_of_int(n):
